@@ -171,7 +171,6 @@ func notices(run *vh.Run) {
 	chain.Init(bodyLimit, "", false, 1, 1)
 	maxBlock := int(chain.MaxBlockSize())
 	seenCap := p2p.VerifC18SeenCap()
-	candidates := map[string]int{}
 
 	for sess := 0; sess < run.Pick(500, 4000); sess++ {
 		// peers: two producers, an agent holding a certificate of producer 0, a relay, an intruder
@@ -340,6 +339,7 @@ func notices(run *vh.Run) {
 			fwd bool
 		}
 		fates := make([]fate, len(seq))
+		served := map[string]int{} // identifier -> 1 + index of the first arrival after which the node has/asked for the genuine block
 		for i, a := range seq {
 			tail := a.opTail
 			if a.kind == "nb" {
@@ -359,6 +359,14 @@ func notices(run *vh.Run) {
 				run.Fail("a block message handler panicked", map[string]interface{}{"op": op, "session": sess, "index": i})
 			}
 			fates[i] = fate{ans, fwd != nil}
+			if served[string(a.id)] == 0 {
+				if fwd != nil && bytes.Equal(digestOf(fwd), fwd.GetHash()) && a.genuine {
+					served[string(a.id)] = i + 1
+				}
+				if strings.HasPrefix(ans, "request ") {
+					served[string(a.id)] = i + 1
+				}
+			}
 			if fwd != nil && !bytes.Equal(digestOf(fwd), fwd.GetHash()) {
 				// the listed class C18-id-not-recomputed at this entry point: exactly "the header does not hash to the carried id"
 				run.Count("known:C18-id-not-recomputed@syncmanager-" + a.kind)
@@ -400,17 +408,14 @@ func notices(run *vh.Run) {
 				run.Count("sm-altered-copy-caused-extra-action") // eviction order: the node does more, not less
 				continue
 			}
-			// the genuine arrival was acted on in the clean session and ignored in the real one
-			if entitled && a.kind == "nb" {
-				// candidate (reported to the lead, counted until it is decided): after repair 27f3484f an altered BlockProduced
-				// copy from a sender that passes the sender check still hides later NewBlockNotices of that identifier
-				cls := "candidate:C18-altered-notice-hides-newblocknotice"
-				run.Count(cls)
-				if candidates[cls]++; candidates[cls] == 1 {
-					run.Sample(fmt.Sprintf("%s | %s", cls, strings.Join(tr, " ; ")))
-				}
+			// the genuine arrival was acted on in the clean session and ignored in the real one. Harmless if the node already
+			// has what the arrival offers: genuine content of that identifier was forwarded, or the block was asked for, earlier
+			// in the real session (then this is the ordinary de-duplication, shifted by the table's eviction order).
+			if served[string(a.id)] < i+1 && served[string(a.id)] > 0 {
+				run.Count("sm-duplicate-dropped-differently")
 				continue
 			}
+			_ = entitled
 			run.Fail("content that does not hash to its announced identifier changed what the node does with the genuine block", replay)
 		}
 	}
